@@ -15,21 +15,40 @@ type ProductPlan struct {
 	CtorFail bool `json:"ctor_fail"` // the registered constructor fails (shapes with an error result)
 	FacFail  bool `json:"fac_fail"`  // the registered factory fails (factory shapes with an error result)
 	Mutate   bool `json:"mutate"`    // afterwards the product scribbles all over its config
+	// Beside: what the failing constructor / registered factory returns together with its error:
+	// "" = nil | value = a non-nil first result | typednil = an interface holding a nil pointer
+	Beside string `json:"beside,omitempty"`
 }
 
 // Session is one NewFactory call followed by calls of the factory; in the
 // "new" form every product is one New call with the session's settings.
 type Session struct {
 	Settings      Settings      `json:"settings"`
-	NoFill        bool          `json:"no_fill"`         // no fillConf callback is passed at all
-	SetupFillFail bool          `json:"setup_fill_fail"` // fillConf fails where it runs once per factory
-	SetupCtorFail bool          `json:"setup_ctor_fail"` // the factory constructor fails at NewFactory
+	NoFill        bool          `json:"no_fill"`                // no fillConf callback is passed at all
+	SetupFillFail bool          `json:"setup_fill_fail"`        // fillConf fails where it runs once per factory
+	SetupCtorFail bool          `json:"setup_ctor_fail"`        // the factory constructor fails at NewFactory
+	SetupBeside   string        `json:"setup_beside,omitempty"` // what it returns beside the error: "" | value (a working factory)
 	Products      []ProductPlan `json:"products"`
 }
 
 type Script struct {
 	Default  Conf      `json:"default"`
 	Sessions []Session `json:"sessions"`
+}
+
+// validate rejects what the generator cannot produce (replay files may carry anything).
+func (sc Script) validate() error {
+	for si, se := range sc.Sessions {
+		if se.SetupBeside != besideNil && se.SetupBeside != besideValue {
+			return fmt.Errorf("harness: session %d: unknown setup_beside %q", si, se.SetupBeside)
+		}
+		for pi, p := range se.Products {
+			if !besideValid(p.Beside) {
+				return fmt.Errorf("harness: session %d product %d: unknown beside %q", si, pi, p.Beside)
+			}
+		}
+	}
+	return nil
 }
 
 // stats counts what was really exercised (for the class histogram).
@@ -40,6 +59,11 @@ type stats struct {
 	fillErr, ctorErr, facErr, setupErr    int
 	mutations, independenceChecks         int
 	sameTypeNoWrap, newCalls, factoryMade int
+	// errors that came together with a non-nil first result, by the requested form that had to deliver them
+	besideValueNew, besideValueFactory       int
+	besideTypedNilNew, besideTypedNilFactory int
+	besideFactoryAtSetup                     int // a factory constructor returned a working factory AND an error
+	namedFactoryMade, namedSameSignature     int // factories of a defined func type; ... whose signature the registered func has
 }
 
 type outcome struct {
@@ -101,6 +125,20 @@ type runner struct {
 	w    *world
 	form string
 	st   *stats
+}
+
+// noteBeside records that an error which came together with a non-nil first result had to be delivered.
+func (r *runner) noteBeside(beside string) {
+	switch {
+	case beside == besideValue && r.form == "new":
+		r.st.besideValueNew++
+	case beside == besideValue:
+		r.st.besideValueFactory++
+	case beside == besideTypedNil && r.form == "new":
+		r.st.besideTypedNilNew++
+	case beside == besideTypedNil:
+		r.st.besideTypedNilFactory++
+	}
 }
 
 func (r *runner) flush() error {
@@ -199,10 +237,10 @@ func (r *runner) expectedConf(sess Session) Conf {
 func (r *runner) create(what string, call func() outcome, sess Session, p ProductPlan, viaPanic bool) (*Impl, error) {
 	w, s := r.w, r.w.shape
 	hasFill := !sess.NoFill
-	w.failFill, w.failCtor, w.failFac = p.FillFail, p.CtorFail, p.FacFail
+	w.failFill, w.failCtor, w.failFac, w.beside = p.FillFail, p.CtorFail, p.FacFail, p.Beside
 	from := w.mark()
 	o := call()
-	w.failFill, w.failCtor, w.failFac = false, false, false
+	w.failFill, w.failCtor, w.failFac, w.beside = false, false, false, besideNil
 	if err := r.flush(); err != nil {
 		return nil, fmt.Errorf("%s: %w", what, err)
 	}
@@ -234,7 +272,8 @@ func (r *runner) create(what string, call func() outcome, sess Session, p Produc
 			return nil, fmt.Errorf("%s: constructor failed but %d factory calls happened", what, facCalls)
 		}
 		r.st.ctorErr++
-		return nil, expectOutcome(what, o, cr.err, viaPanic, r.st)
+		r.noteBeside(cr.beside)
+		return nil, expectOutcome(what+besideText(cr.beside), o, cr.err, viaPanic, r.st)
 	}
 	if s.Kind == "factory" {
 		if facCalls != 1 {
@@ -242,7 +281,8 @@ func (r *runner) create(what string, call func() outcome, sess Session, p Produc
 		}
 		if fr := w.facs[len(w.facs)-1]; fr.err != nil {
 			r.st.facErr++
-			return nil, expectOutcome(what, o, fr.err, viaPanic, r.st)
+			r.noteBeside(fr.beside)
+			return nil, expectOutcome(what+besideText(fr.beside), o, fr.err, viaPanic, r.st)
 		}
 	} else if facCalls != 0 {
 		return nil, fmt.Errorf("%s: unexpected factory calls", what)
@@ -253,19 +293,43 @@ func (r *runner) create(what string, call func() outcome, sess Session, p Produc
 	return r.checkProduct(what, o, from, exp)
 }
 
+// besideText names what the failing call returned together with the error (for messages).
+func besideText(beside string) string {
+	switch beside {
+	case besideValue:
+		return " (the error was returned together with a NON-NIL first result)"
+	case besideTypedNil:
+		return " (the error was returned together with an interface holding a nil pointer)"
+	}
+	return ""
+}
+
+// callFactory: fac has the dynamic type the form requested (checked by the caller).
 func (r *runner) callFactory(fac any) func() outcome {
-	if r.form == "factory_err" {
-		f := fac.(func() (Comp, error))
+	var withErr func() (Comp, error)
+	var noErr func() Comp
+	switch f := fac.(type) {
+	case func() (Comp, error):
+		withErr = f
+	case CompFactory:
+		withErr = f
+	case func() Comp:
+		noErr = f
+	case CompFactoryNoErr:
+		noErr = f
+	default:
+		panic(fmt.Sprintf("c18 harness: callFactory(%T)", fac))
+	}
+	if withErr != nil {
 		return func() outcome {
 			return guarded(func() (any, error) {
-				c, err := f()
+				c, err := withErr()
 				return c, err
 			})
 		}
 	}
-	f := fac.(func() Comp)
 	return func() outcome {
-		return guarded(func() (any, error) { return f(), nil })
+		return guarded(func() (any, error) { return noErr(), nil })
 	}
 }
 
@@ -277,14 +341,8 @@ type delivered struct {
 // run drives the whole script through one (shape, form) combination.
 func (r *runner) run(script Script) error {
 	w, s := r.w, r.w.shape
-	viaPanic := r.form == "factory_noerr"
-	var facType reflect.Type
-	switch r.form {
-	case "factory_err":
-		facType = facErrType
-	case "factory_noerr":
-		facType = facNoErrType
-	}
+	viaPanic := formViaPanic(r.form)
+	facType, namedType, unnamedType := formFactoryType(r.form)
 	for si, sess := range script.Sessions {
 		r.st.sessions++
 		var fillArgs []func(any) error
@@ -324,9 +382,10 @@ func (r *runner) run(script Script) error {
 			w.failFill = perFactoryFill && sess.SetupFillFail
 			w.failCtor = s.Kind == "factory" && sess.SetupCtorFail
 			w.failFac = false
+			w.beside = sess.SetupBeside
 			from := w.mark()
 			o := guarded(func() (any, error) { return r.reg.NewFactory(facType, w.name, fillArgs...) })
-			w.failCtor = false
+			w.failCtor, w.beside = false, besideNil
 			if err := r.flush(); err != nil {
 				return fmt.Errorf("%s: %w", what, err)
 			}
@@ -403,6 +462,10 @@ func (r *runner) run(script Script) error {
 				if cr.err != nil {
 					r.st.ctorErr++
 					r.st.setupErr++
+					if cr.beside == besideValue {
+						r.st.besideFactoryAtSetup++
+						what += " (the factory constructor returned the error together with a NON-NIL factory)"
+					}
 					if err := expectOutcome(what, o, cr.err, false, r.st); err != nil {
 						return err
 					}
@@ -418,6 +481,13 @@ func (r *runner) run(script Script) error {
 			r.st.factoryMade++
 			if (s.Kind == "component" && s.ctorType() == facType) || (s.Kind == "factory" && s.productFuncType() == facType) {
 				r.st.sameTypeNoWrap++
+			}
+			if namedType {
+				r.st.namedFactoryMade++
+				// the registered func could be handed out as it is but for its type: it has exactly the signature asked for
+				if (s.Kind == "component" && s.ctorType() == unnamedType) || (s.Kind == "factory" && s.productFuncType() == unnamedType) {
+					r.st.namedSameSignature++
+				}
 			}
 			call := r.callFactory(o.val)
 			if len(sess.Products) >= 2 {
@@ -435,10 +505,10 @@ func (r *runner) run(script Script) error {
 					deliver(p, impl)
 				case s.Kind == "component":
 					w.failFill = noConfLazyFillFailure
-					w.failCtor, w.failFac = p.CtorFail, false
+					w.failCtor, w.failFac, w.beside = p.CtorFail, false, p.Beside
 					from := w.mark()
 					o := call()
-					w.failCtor = false
+					w.failCtor, w.beside = false, besideNil
 					if err := r.flush(); err != nil {
 						return fmt.Errorf("%s: %w", what, err)
 					}
@@ -462,7 +532,8 @@ func (r *runner) run(script Script) error {
 					}
 					if cr := w.ctors[len(w.ctors)-1]; cr.err != nil {
 						r.st.ctorErr++
-						if err := expectOutcome(what, o, cr.err, viaPanic, r.st); err != nil {
+						r.noteBeside(cr.beside)
+						if err := expectOutcome(what+besideText(cr.beside), o, cr.err, viaPanic, r.st); err != nil {
 							return err
 						}
 						continue
@@ -476,10 +547,10 @@ func (r *runner) run(script Script) error {
 					}
 					deliver(p, impl)
 				default: // factory constructor: one call of the registered factory, nothing else
-					w.failFill, w.failCtor, w.failFac = false, false, p.FacFail
+					w.failFill, w.failCtor, w.failFac, w.beside = false, false, p.FacFail, p.Beside
 					from := w.mark()
 					o := call()
-					w.failFac = false
+					w.failFac, w.beside = false, besideNil
 					if err := r.flush(); err != nil {
 						return fmt.Errorf("%s: %w", what, err)
 					}
@@ -494,7 +565,8 @@ func (r *runner) run(script Script) error {
 					}
 					if fr := w.facs[len(w.facs)-1]; fr.err != nil {
 						r.st.facErr++
-						if err := expectOutcome(what, o, fr.err, viaPanic, r.st); err != nil {
+						r.noteBeside(fr.beside)
+						if err := expectOutcome(what+besideText(fr.beside), o, fr.err, viaPanic, r.st); err != nil {
 							return err
 						}
 						continue
